@@ -425,6 +425,8 @@ func Distinct(as ...*Term) *Term {
 
 // ---------- arrays ----------
 
+var selectDepth int
+
 func Select(a, i *Term) *Term {
 	if a.Sort.Kind != SArray {
 		panic("select on non-array " + a.Sort.String())
@@ -452,6 +454,13 @@ func Select(a, i *Term) *Term {
 			return cur.Args[0]
 		}
 		break
+	}
+	if cur.Op == "ite" && selectDepth < 6 {
+		// read through a merged array: select(ite(c,a,b), i) = ite(c, select(a,i), select(b,i))
+		selectDepth++
+		r := Ite(cur.Args[0], Select(cur.Args[1], i), Select(cur.Args[2], i))
+		selectDepth--
+		return r
 	}
 	return mk("select", a.Sort.Elem, cur, i)
 }
